@@ -60,6 +60,17 @@ pub fn run(cx: &mut Ctx) {
     }
     cx.exhaustive_blocks.push(format!("inputs of 0..={maxn} rows x all combiners x fan-out {{None,0,1,2,3,7}} x classic/lifted x seq + par 1..min(n+1,6) ({n_ex} programs)"));
 
+    // large partitions (above the planner's 64k rows/partition target), oracle only
+    {
+        let n = if cx.tier == crate::ctx::Tier::Quick { 70_001 } else { 140_003 };
+        let src = large_keyed_source(n, 13);
+        for steps in [vec![Step::CombineValues(Comb::Sum)], vec![Step::CombineValues(Comb::Topk(3))], vec![Step::Gbk, Step::CombineValuesLifted(Comb::Count)],
+                      vec![Step::Values, Step::CombineGlobally(Comb::Sum, Some(2))], vec![Step::Values, Step::Distinct]] {
+            let p = Prog { shape: Shape::KV, src: src.clone(), steps };
+            check_prog_oracle_only(cx, &p, &format!("rows={n} keys=13"), &[Mode::Seq, Mode::Par(1), Mode::Par(2), Mode::Par(64)]);
+        }
+    }
+
     // random: a reorder-inert prefix, then a combine entry point (classic / lifted on raw grouped input with
     // repeated keys / global / derived), then maybe a suffix
     let rounds = cx.budget(350, 8000);
